@@ -483,6 +483,10 @@ const setupWait = 6 * time.Second
 
 func (w *world) wait(o op, v *verdict) {
 	ok := true
+	setupWait := setupWait
+	if !v.SetupOK {
+		setupWait = 500 * time.Millisecond // the history already went off its expected course: do not wait long again
+	}
 	switch o.W {
 	case "hook":
 		id := w.id(o.R)
@@ -1180,22 +1184,32 @@ func genResume(r *rng.R) scase {
 		c.Ops = append(c.Ops, op{K: "new", P: 1, R: nextR, Pause: true, W: "hook", Blocks: []int{s, s}})
 		nextR++
 	}
+	n0 := 0
 	if r.P(1, 3) {
-		// a new (never paused) request of peer 1 among them counts against the same cap
-		c.Ops = append(c.Ops, op{K: "new", P: 1, R: nextR, Blocks: []int{s, s}})
-		nextR++
-		k++
-	}
-	for i := 0; i < k && 10+i < nextR; i++ {
-		if c.Ops[i].Pause {
-			c.Ops = append(c.Ops, op{K: "unpause", R: 10 + i, W: "ret"})
+		// a new (never paused) request of peer 1 counts against the same cap: it runs first
+		o := op{K: "new", P: 1, R: nextR, Blocks: []int{s, s}}
+		if c.Stalled {
+			o.W, o.Exp = "stats", []int{1, 0, s, s}
 		}
+		c.Ops = append(c.Ops, o)
+		nextR++
+		n0 = 1
 	}
-	if c.Stalled {
-		// cap responses run: one block granted, every running response has one reservation waiting
-		c.Ops = append(c.Ops, op{K: "wait", W: "stats", Exp: []int{c.Cap, k - c.Cap, s, c.Cap * s}})
-	} else {
-		for i := 0; i < k; i++ {
+	// resume one after the other; after each resume wait until the task queue and the allocator show what the cap
+	// allows: min(started, cap) responses running (each with one reservation waiting), the others queued
+	for j := 1; j <= k; j++ {
+		o := op{K: "unpause", R: 10 + j - 1, W: "ret"}
+		if c.Stalled {
+			run := n0 + j
+			if run > c.Cap {
+				run = c.Cap
+			}
+			o.W, o.Exp = "stats", []int{run, n0 + j - run, s, run * s}
+		}
+		c.Ops = append(c.Ops, o)
+	}
+	if !c.Stalled {
+		for i := 0; i < k+n0; i++ {
 			c.Ops = append(c.Ops, op{K: "wait", P: 1, R: 10 + i, W: "done"})
 		}
 	}
